@@ -18,7 +18,8 @@ EXTENDS Integers, Sequences, FiniteSets, TLC, Json
 CONSTANTS Depth,     \* maximal number of compound contexts around the leaf
           MinDepth,  \* minimal number (0 for exhaustive runs, = Depth for simulation of deep programs)
           SynDepth,  \* programs the compiler must reject are generated up to this path length only
-          MaxIn      \* number of freely chosen inputs per run; later reads are forced to 0
+          MaxIn,     \* number of freely chosen inputs per run; later reads are forced to 0
+          Outer3     \* contexts allowed outermost in paths of length >= 3 (cfg: Contexts or OuterRep)
 
 -----------------------------------------------------------------------------
 (* Exception classes: builtin ones only (gpython cannot define exception classes).               *)
@@ -64,18 +65,29 @@ LeafName(lf) == IF lf.k = "raise" THEN "raise:" \o lf.e ELSE lf.k
 LeafStmt(lf, d) == IF lf.k = "enterraise" THEN With(Cm(d, TRUE, "none", FALSE), << Mk(d, 1) >>)
                    ELSE lf
 
-Contexts == { "forbody", "forelse", "foriter", "whilebody", "ifthen",
+(* Every clause position (body, handler, else, finally) of every clause combination of try -- finally  *)
+(* only (tf..), except only (tebody3, tehandleras, tehandlerre), except+else (tebody1/2, tehandler,     *)
+(* teelse), except+finally (tef..), except+else+finally (teef..) -- and body and else of both loops can  *)
+(* hold the hole.                                                                                        *)
+Contexts == { "forbody", "forelse", "foriter", "whilebody", "whileelse", "ifthen",
               "tfbody", "tffin", "tffinexc", "tffinret",
-              "tebody1", "tebody2", "tebody3", "tehandler", "tehandleras", "tehandlerre", "teelse", "tefbody", "tefhandler",
+              "tebody1", "tebody2", "tebody3", "tehandler", "tehandleras", "tehandlerre", "teelse",
+              "tefbody", "tefhandler", "teffin",
+              "teefbody", "teefhandler", "teefelse", "teeffin",
               "withn", "withs", "witht", "withx", "call" }
+(* one representative per kind of enclosing block: the outermost context of the exhaustively enumerated *)
+(* depth-3 paths of the thorough tier (cfg: Outer3 <- OuterRep); deeper/other paths are sampled          *)
+OuterRep == { "forbody", "whilebody", "forelse", "ifthen", "tfbody", "tffin", "tebody1", "tehandler", "teelse",
+              "teefbody", "teefelse", "withn", "withs", "call" }
 (* contexts whose hole runs while an exception is being handled (bare raise is meaningful there) *)
-HandlingCtx == { "tehandler", "tehandleras", "tehandlerre", "tefhandler", "tffinexc" }
+HandlingCtx == { "tehandler", "tehandleras", "tehandlerre", "tefhandler", "teefhandler", "tffinexc" }
 
 Wrap(c, d, x) ==
   CASE c = "forbody"   -> For("range", B(d, x), << Mk(d, 3) >>)
     [] c = "forelse"   -> For("range", << Mk(d, 1) >>, << Mk(d, 3), x, Mk(d, 4) >>)
     [] c = "foriter"   -> For("raising", B(d, x), << Mk(d, 3) >>)
     [] c = "whilebody" -> [k |-> "while", body |-> B(d, x), orelse |-> << Mk(d, 3) >>, ln |-> 0, nx |-> 0]
+    [] c = "whileelse" -> [k |-> "while", body |-> << Mk(d, 1) >>, orelse |-> << Mk(d, 3), x, Mk(d, 4) >>, ln |-> 0, nx |-> 0]
     [] c = "ifthen"    -> [k |-> "if", then |-> B(d, x), orelse |-> << Mk(d, 3) >>, ln |-> 0, nx |-> 0]
     [] c = "tfbody"    -> Try(B(d, x), <<>>, <<>>, << Mk(d, 5) >>)
     [] c = "tffin"     -> Try(<< Mk(d, 1) >>, <<>>, <<>>, << Mk(d, 5), x, Mk(d, 6) >>)
@@ -90,7 +102,9 @@ Wrap(c, d, x) ==
     [] c = "tebody3"   -> Try(B(d, x), << H(<<"KeyError">>, TRUE, << Mk(d, 7) >>), H(<<>>, FALSE, << Mk(d, 8) >>) >>, <<>>, <<>>)
     [] c = "tehandler" -> Try(<< Mk(d, 1), RaiseS("KeyError") >>, << H(<<"LookupError">>, FALSE, << Mk(d, 7), x, Mk(d, 8) >>) >>,
                               << Mk(d, 4) >>, <<>>)
-    [] c = "tehandleras" -> Try(<< Mk(d, 1), RaiseS("KeyError") >>, << H(<<"KeyError">>, TRUE, << Mk(d, 7), x, Mk(d, 8) >>) >>, <<>>, <<>>)
+    \* hole in a LATER handler that binds the exception
+    [] c = "tehandleras" -> Try(<< Mk(d, 1), RaiseS("KeyError") >>,
+                                << H(<<"ValueError">>, FALSE, << Mk(d, 9) >>), H(<<"KeyError">>, TRUE, << Mk(d, 7), x, Mk(d, 8) >>) >>, <<>>, <<>>)
     \* the handler ends with a bare raise AFTER the hole: whatever was raised and handled inside the hole,
     \* the exception re-raised is the one this handler caught
     [] c = "tehandlerre" -> Try(<< Mk(d, 1), RaiseS("KeyError") >>,
@@ -99,6 +113,13 @@ Wrap(c, d, x) ==
     [] c = "tefbody"   -> Try(B(d, x), << H(<<"ValueError">>, FALSE, << Mk(d, 7) >>) >>, <<>>, << Mk(d, 5) >>)
     [] c = "tefhandler" -> Try(<< Mk(d, 1), RaiseS("ValueError") >>, << H(<<"ValueError">>, FALSE, << Mk(d, 7), x, Mk(d, 8) >>) >>,
                                <<>>, << Mk(d, 5) >>)
+    [] c = "teffin"    -> Try(<< Mk(d, 1) >>, << H(<<"ValueError">>, FALSE, << Mk(d, 7) >>) >>, <<>>, << Mk(d, 5), x, Mk(d, 6) >>)
+    \* the full statement: try / except / else / finally
+    [] c = "teefbody"  -> Try(B(d, x), << H(<<"LookupError">>, FALSE, << Mk(d, 7) >>) >>, << Mk(d, 4) >>, << Mk(d, 5) >>)
+    [] c = "teefhandler" -> Try(<< Mk(d, 1), RaiseS("ValueError") >>, << H(<<"ValueError">>, FALSE, << Mk(d, 7), x, Mk(d, 8) >>) >>,
+                                << Mk(d, 4) >>, << Mk(d, 5) >>)
+    [] c = "teefelse"  -> Try(<< Mk(d, 1) >>, << H(<<"LookupError">>, FALSE, << Mk(d, 7) >>) >>, << Mk(d, 3), x, Mk(d, 4) >>, << Mk(d, 5) >>)
+    [] c = "teeffin"   -> Try(<< Mk(d, 1) >>, << H(<<"LookupError">>, FALSE, << Mk(d, 7) >>) >>, << Mk(d, 4) >>, << Mk(d, 5), x, Mk(d, 6) >>)
     [] c = "withn"     -> With(Cm(d, FALSE, "none", FALSE), B(d, x))
     [] c = "withs"     -> With(Cm(d, FALSE, "true", FALSE), B(d, x))
     [] c = "witht"     -> With(Cm(d, FALSE, "one", FALSE), B(d, x))
@@ -355,6 +376,7 @@ SynRecord(p, pg) == [prog |-> pg, path |-> p, inputs |-> <<>>, log |-> <<>>, why
 Init == /\ st = "gen" /\ path = <<>> /\ prog = <<>> /\ run = Run0(<<>>)
 
 GenCtx == /\ st = "gen" /\ Len(path) < Depth
+          /\ Len(path) >= 2 => path[1] \in Outer3
           /\ \E c \in Contexts : path' = Append(path, c)
           /\ UNCHANGED << st, prog, run >>
 GenLeaf == /\ st = "gen" /\ Len(path) >= MinDepth
